@@ -178,7 +178,7 @@ func ruleCleanUpRemoves(c *Ctx, rule string) {
 	}
 	var bad *ssa.Return
 	for _, r := range returnsOf(fn) {
-		if !everyPathPasses(fn, r, isRemove, nil) {
+		if !everyPathPasses(fn, r, viaCalls(isRemove), nil) {
 			bad = r
 		}
 	}
@@ -205,7 +205,7 @@ func ruleScanAlways(c *Ctx, rule string) {
 	}
 	var bad *ssa.Return
 	for _, r := range returnsOf(fn) {
-		if maybeSuccess(r) && !everyPathPasses(fn, r, isScan, nil) {
+		if maybeSuccess(r) && !everyPathPasses(fn, r, viaCalls(isScan), nil) {
 			bad = r
 		}
 	}
@@ -329,11 +329,11 @@ func ruleImageLocated(c *Ctx, rule string) {
 				}
 			}
 		}
-		for _, an := range f.AnonFuncs {
-			visit(an)
-		}
 	}
-	visit(fn)
+	// Piles itself, its function literals and the private helpers it hands the work to
+	for _, f := range pkgReach(fn) {
+		visit(f)
+	}
 	switch {
 	case n == 0:
 		c.und(rule, key, fn.Pos(), "no store of an image's location")
@@ -611,7 +611,7 @@ func ruleWriterTakes(c *Ctx, rule string) {
 	}
 	var bad *ssa.Return
 	for _, r := range returnsOf(fn) {
-		if !everyPathPasses(fn, r, isRecv, nil) {
+		if !everyPathPasses(fn, r, viaCalls(isRecv), nil) {
 			bad = r
 		}
 	}
